@@ -45,6 +45,18 @@ def run_plan(prop, tier, plan, replay=None):
         res = rc.run_exec(tr, what, invariants=m.pop("invariants", LAWS), **m)
         if res.violated or res.deadlock:
             rc.law_violation(vd, res, what)
+    # (1b) the SQL extend-merge contention rule, symbolically (spec/SqlMerge.tla)
+    if plan.get("merge_traces"):
+        from .sm_props import run_sm
+        r = run_sm("MC_SqlMerge", {"Cols": "<- MC_Cols2", "PASS": "= PASS", "Dev": "<- NoDev"}, invariants=["MergeSound"], tr=tr,
+                   what="SQL extend merge: the contention rule is sound for ALL pairs of SELECT lists over 2 columns (symbolic meanings)")
+        if r.violated:
+            rc.law_violation(vd, r, "SqlMerge MergeSound")
+        r = run_sm("MC_SqlMerge", {"Cols": "<- MC_Cols2", "PASS": "= PASS", "Dev": "<- DevWindow"}, invariants=["MergeSound"], tr=tr,
+                   what="deviation model: window columns missing from the declared dependencies must break MergeSound")
+        stats["deviation window_deps_undeclared violates"] = r.violated or "nothing"
+        if r.violated != "MergeSound":
+            raise common.MachineryError("SqlMerge deviation model does not violate MergeSound")
     # (2) behaviours for replay: exhaustive strata and seeded simulation
     results = []
     for e in plan.get("emit", []):
@@ -76,9 +88,12 @@ def run_plan(prop, tier, plan, replay=None):
     # (3) conformance: replay into the real code
     judge = plan.get("judge", default_judge)
     prefix = exec_traces.start(prop) if plan.get("exec_traces") else None
+    mprefix = exec_traces.start_merge(prop) if plan.get("merge_traces") else None
     judge(prop, vd, cases, plan, stats)
     # (4) conformance the other way: the executor's recorded steps validated by TLC
     extra_cov = exec_traces.run(prop, vd, stats, tr, prefix, tier, laws=plan["exec_traces"]) if prefix else {}
+    if mprefix:
+        extra_cov.update(exec_traces.run_merge(prop, vd, stats, tr, mprefix, tier))
     # evidence
     wall = time.time() - t0
     samples = [rc.short_case(c) for c in cases[:3]]
@@ -98,7 +113,8 @@ def run_plan(prop, tier, plan, replay=None):
         "backends": list(plan.get("backends", relreplay.BACKENDS)),
     }
     cov.update(extra_cov)
-    cov["traces_validated_against_impl"] += extra_cov.get("executor_traces_from_replay", 0) + extra_cov.get("executor_traces_from_repo_tests", 0)
+    cov["traces_validated_against_impl"] += (extra_cov.get("executor_traces_from_replay", 0) + extra_cov.get("executor_traces_from_repo_tests", 0)
+                                             + extra_cov.get("sql_merge_decisions_validated", 0))
     if plan.get("level", "model_checking") != "model_checking":
         cov["explanation"] = plan["explanation"]
     common.write_evidence(prop, tier, plan.get("level", "model_checking"), cov, wall, len(vd.violations),
@@ -177,6 +193,7 @@ PLAN_C01 = {
     ],
     "sim": dict(what="random pipelines of 3 steps over 2 tables of <=3 rows", num=(1200, 5000), rows=3, steps=3, **SIMT),
     "sims": INTERACTIONS,
+    "merge_traces": True,
     "backends": ("pandas", "sqlite"),
     "differential": {"pandas": "sqlite", "sqlite": "pandas"},
     "allow_raise": (),
